@@ -210,6 +210,14 @@ func Encode(req int, op Op, nowNs int64) *Wire {
 		if msPrecision {
 			ts = (ts / 1000000) * 1000000
 		}
+		if e.Snap > 0 {
+			ts = nowNs / 86400000000000 * 86400000000000
+			if e.Snap == 2 && msPrecision {
+				ts -= 1000000
+			} else if e.Snap == 2 {
+				ts--
+			}
+		}
 		x := &ExpRow{Req: req, Stream: si, Entry: ei, TsNs: ts}
 		ee := encEntry{ts: ts}
 		if e.Metric {
